@@ -1,32 +1,32 @@
 (* C08: the round-trip theorems in terms of sources. *)
 From Coq Require Import String List NArith Bool Lia.
 From GQL Require Import Base.Bytes Syntax.Lexer Syntax.Ast Syntax.Parser Syntax.Grammar Syntax.Printer
-  Proofs.SyntaxSound Proofs.SyntaxComplete Proofs.SyntaxPrinter Proofs.SyntaxRender Proofs.SyntaxLayoutWf
+  Proofs.SyntaxSound Proofs.SyntaxComplete Proofs.SyntaxPrinter Proofs.SyntaxUtf8 Proofs.SyntaxRender Proofs.SyntaxLayoutWf
   Proofs.SyntaxLexemes Proofs.SyntaxRoundTrip.
 Import ListNotations.
 Open Scope N_scope.
 
-(* the restriction inherited from C08_string_roundtrip_partial: every string or block-string token
-   of the source has a value made of single-byte characters *)
-Definition str_ascii_tok (t : token) : bool :=
-  match tk t with STRING | BLOCK_STRING => ascii (tval t) | _ => true end.
-Definition strings_ascii_toks (ts : list token) : bool := forallb str_ascii_tok ts.
-Definition src_strings_ascii (src : bytes) : bool :=
-  match lex src with Ok (ts, _) => strings_ascii_toks ts | _ => false end.
+(* the restriction inherited from C08_string_roundtrip: every string or block-string token of the
+   source has a value that is valid UTF-8 (str_okb: no byte that utf8.DecodeRune would replace) *)
+Definition str_ok_tok (t : token) : bool :=
+  match tk t with STRING | BLOCK_STRING => str_ok (tval t) | _ => true end.
+Definition strings_ok_toks (ts : list token) : bool := forallb str_ok_tok ts.
+Definition src_strings_utf8 (src : bytes) : bool :=
+  match lex src with Ok (ts, _) => strings_ok_toks ts | _ => false end.
 
-Lemma toks_wf_of : forall ts, forallb lexeme_ok ts = true -> strings_ascii_toks ts = true -> toks_wf ts.
+Lemma toks_wf_of : forall ts, forallb lexeme_ok ts = true -> strings_ok_toks ts = true -> toks_wf ts.
 Proof.
   induction ts as [|t ts IH]; intros H1 H2; [reflexivity|]. unfold toks_wf. cbn [forallb] in *.
-  apply andb_true_iff in H1. destruct H1 as [L1 H1]. unfold strings_ascii_toks in H2. cbn [forallb] in H2.
+  apply andb_true_iff in H1. destruct H1 as [L1 H1]. unfold strings_ok_toks in H2. cbn [forallb] in H2.
   apply andb_true_iff in H2. destruct H2 as [A1 H2].
   rewrite (IH H1 H2). rewrite andb_true_r.
-  unfold tok_wf, lexeme_ok, str_ascii_tok in *. destruct (tk t); try reflexivity; assumption.
+  unfold tok_wf, lexeme_ok, str_ok_tok in *. destruct (tk t); try reflexivity; assumption.
 Qed.
 
-Theorem roundtrip_exec : forall src d mb, parse src = Ok (d, mb) -> exec_only d = true -> src_strings_ascii src = true ->
+Theorem roundtrip_exec : forall src d mb, parse src = Ok (d, mb) -> exec_only d = true -> src_strings_utf8 src = true ->
   exists d', parse (print_doc d) = Ok (d', false) /\ erase_loc d' = erase_loc d /\ print_doc d' = print_doc d.
 Proof.
-  intros src d mb H E A. unfold parse in H. unfold src_strings_ascii in A.
+  intros src d mb H E A. unfold parse in H. unfold src_strings_utf8 in A.
   destruct (lex src) as [[ts m]| |] eqn:L; try discriminate.
   destruct (parse_tokens ts) as [d0| |] eqn:P; try discriminate. inversion H; subst d0 m.
   apply (roundtrip_exec_tokens ts d P E). apply toks_wf_of; [|exact A].
@@ -49,7 +49,7 @@ Proof.
 Qed.
 
 (* a value parsed from a source *)
-Theorem value_roundtrip_src : forall src ts mb fuel c v st', lex src = Ok (ts, mb) -> strings_ascii_toks ts = true ->
+Theorem value_roundtrip_src : forall src ts mb fuel c v st', lex src = Ok (ts, mb) -> strings_ok_toks ts = true ->
   parse_value fuel c (0, ts) = Ok (v, st') ->
   exists ts' v', lex (print_value v) = Ok (ts' ++ [eof_tok (nlen (print_value v))], false) /\
     gnl (g_value v') = gnl (g_value v) /\
